@@ -377,3 +377,7 @@ def w1_no_derefmut(ctx):
 
 
 RULES = [("R1", r1_pairing), ("R2", r2_process_event), ("R3", r3_resolver), ("R4", r4_attributes), ("W1", w1_no_derefmut)]
+
+
+def THOROUGH_EXTRA(ctx):
+    return run_witnesses(ctx, "W", ['W1NoDerefMut', 'W1bPrivateReader'])
